@@ -293,7 +293,7 @@ Proof.
     destruct (m_diag st) as [d0|] eqn:Ed.
     + destruct (mul_diag_diag d0 d) as [pd| | |] eqn:Em; cbn [bind] in Hstep; try discriminate.
       inversion Hstep; subst; clear Hstep. cbn [m_keep m_diag m_dense m_ident].
-      unfold mul_diag_diag in Em. apply zipc_spec in Em. destruct Em as (Ls & _ & _).
+      unfold mul_diag_diag in Em. destruct (Nat.eqb _ _) eqn:EG in Em; cbn [negb] in Em; [|discriminate]. apply zipc_spec in Em. destruct Em as (Ls & _ & _).
       split; [assumption|].
       split; [intros d' E; inversion E; subst; pose proof (Hd d0 eq_refl); destruct d0; [congruence|]; destruct d'; discriminate|].
       split; [assumption|].
@@ -302,7 +302,7 @@ Proof.
       * destruct (mul_dense_diag m n v d) as [r| | |] eqn:Em; cbn [bind] in Hstep; try discriminate.
         inversion Hstep; subst; clear Hstep. cbn [m_keep m_diag m_dense m_ident].
         destruct (Hde m n v eq_refl) as (A & B & C).
-        unfold mul_dense_diag in Em. destruct (tab2 m n _) as [pv| | |] eqn:Et; cbn [bind] in Em; try discriminate.
+        unfold mul_dense_diag in Em. destruct (Nat.eqb _ _) eqn:EG in Em; cbn [negb] in Em; [|discriminate]. destruct (tab2 m n _) as [pv| | |] eqn:Et; cbn [bind] in Em; try discriminate.
         inversion Em; subst r. apply tab2_length in Et.
         split; [assumption|]. split; [discriminate|].
         split; [intros m1 n1 v1 E; inversion E; subst; auto|].
@@ -318,7 +318,7 @@ Proof.
     + destruct (mul_dense_dense m0 n0 v0 m n v) as [r| | |] eqn:Em; cbn [bind] in Hstep; try discriminate.
       inversion Hstep; subst; clear Hstep. cbn [m_keep m_diag m_dense m_ident].
       destruct (Hde m0 n0 v0 eq_refl) as (A & B & C).
-      unfold mul_dense_dense in Em. destruct (tab2 m0 n _) as [pv| | |] eqn:Et; cbn [bind] in Em; try discriminate.
+      unfold mul_dense_dense in Em. destruct (Nat.eqb _ _) eqn:EG in Em; cbn [negb] in Em; [|discriminate]. destruct (tab2 m0 n _) as [pv| | |] eqn:Et; cbn [bind] in Em; try discriminate.
       inversion Em; subst r. apply tab2_length in Et.
       split; [assumption|]. split; [assumption|].
       split; [intros m1 n1 v1 E; inversion E; subst; auto|].
@@ -327,7 +327,7 @@ Proof.
     + destruct (m_diag st) as [d0|] eqn:Ed.
       * destruct (mul_diag_dense d0 m n v) as [r| | |] eqn:Em; cbn [bind] in Hstep; try discriminate.
         inversion Hstep; subst; clear Hstep. cbn [m_keep m_diag m_dense m_ident].
-        unfold mul_diag_dense in Em. destruct (tab2 m n _) as [pv| | |] eqn:Et; cbn [bind] in Em; try discriminate.
+        unfold mul_diag_dense in Em. destruct (Nat.eqb _ _) eqn:EG in Em; cbn [negb] in Em; [|discriminate]. destruct (tab2 m n _) as [pv| | |] eqn:Et; cbn [bind] in Em; try discriminate.
         inversion Em; subst r. apply tab2_length in Et.
         split; [assumption|]. split; [discriminate|].
         split; [intros m1 n1 v1 E; inversion E; subst; auto|].
